@@ -18,6 +18,7 @@
 (*              flipped / garbage / empty signature, HMAC under the public key) x     *)
 (*              alg header (own, other, none, lower case, other family, absent,       *)
 (*              non-string) x kid header x crit                                      *)
+(*   keyid      two TINK keys with key ids from the boundary set x signer x kid        *)
 (*   struct     number and place of dots, white space x base64 variant of each part   *)
 (*   json       shape of the header text and of the claims-set text                   *)
 (* with the other blocks at a passing value (ctx "pass") and at a failing one (a      *)
@@ -31,8 +32,16 @@ Full == Tier = "thorough"
 
 \* ------------------------------------------------------------------ keys
 \* base64url(big-endian key id) of the model's two key ids (checked against JWS below)
-TinkKid(id) == CASE id = "01020304" -> "AQIDBA" [] id = "fffffffe" -> "_____g"
-ASSUME \A id \in {"01020304", "fffffffe"} : Txt(TinkKid(id)) = B64UrlEncode(HexToBytes(id))
+\* the kid of a TINK key: base64url of the 4-octet big-endian key id (jwt_encoding.go keyID)
+TinkKid(id) == B64UrlText(HexToBytes(id))
+\* key ids at the boundaries of that encoding: leading zero octets (0, 1, 0xab, 0xabcd, 0xabcdef, 2^24 - 1, 2^24),
+\* the sign bit, all ones, and an id whose base64url text has the two URL characters '-' and '_'
+BoundaryIds == {"00000000", "00000001", "000000ab", "0000abcd", "00abcdef", "00ffffff", "01000000", "7fffffff",
+                "80000000", "fbefbeff", "ffffffff"}
+ASSUME \A id \in BoundaryIds \cup {"01020304", "fffffffe"} :
+         Txt(TinkKid(id)) = B64UrlEncode(HexToBytes(id)) /\ Len(TinkKid(id)) = 6
+ASSUME TinkKid("01020304") = "AQIDBA" /\ TinkKid("fffffffe") = "_____g" /\ TinkKid("00000000") = "AAAAAA"
+       /\ TinkKid("fbefbeff") = "----_w"
 
 \* n = 1, 2: the two enabled keys; their ids / custom kids
 KeyId(n)     == IF n = 1 THEN "01020304" ELSE "fffffffe"
@@ -41,6 +50,9 @@ Key(n, alg, strat, mat, status) ==
   [alg |-> alg, strat |-> strat, status |-> status, mat |-> mat,
    id  |-> IF strat = "TINK" THEN KeyId(n) ELSE "",
    kid |-> CASE strat = "TINK" -> TinkKid(KeyId(n)) [] strat = "CUSTOM" -> CustomKid(n) [] OTHER -> ""]
+
+\* a TINK key with a chosen key id
+TinkKey(id, alg, mat) == [alg |-> alg, strat |-> "TINK", status |-> "ENABLED", mat |-> mat, id |-> id, kid |-> TinkKid(id)]
 
 Strats == {"TINK", "CUSTOM", "IGNORED"}
 
@@ -78,7 +90,7 @@ WithCtx(c, ctx) ==
 
 \* Every block is a set of small parameter tuples (cheap for TLC to enumerate and order) and an
 \* operator that makes the case of a tuple.  a: the key algorithm of the case's first key.
-BlockNames == {"time", "timefrac", "timetype", "presence", "strings", "header", "struct", "json"}
+BlockNames == {"keyid", "time", "timefrac", "timetype", "presence", "strings", "header", "struct", "json"}
 
 \* the code has two verification paths: jwt.MAC (HS*) and jwt.Verifier (ES*, RS*, PS*)
 BlockAlgs(blk) ==
@@ -90,6 +102,7 @@ Ctxs(blk) ==
     [] blk = "header"   -> {"pass"}
     [] blk = "presence" -> IF Full THEN {"pass", "badsig"} ELSE {"pass"}
     [] blk = "timefrac" -> {"pass"}
+    [] blk = "keyid"    -> {"pass"}
     [] OTHER            -> {"pass", "badsig", "expired"}
 
 \* ------------------------------------------------------------------ block: time
@@ -205,6 +218,20 @@ HeaderMake(a, p) ==
        [DefTok(a) EXCEPT !.signer = [mat |-> p[2][1], alg |-> IF p[2][2] = "own" THEN a ELSE Alg2(a), mode |-> p[2][3]],
                          !.hdr.alg = AlgHdr(a, p[3]), !.hdr.kid = p[4], !.hdr.crit = p[5]], DefV, Now0)
 
+\* ------------------------------------------------------------------ block: key ids
+\* Two TINK keys with key ids from the boundary set (id and its successor in the set): who signed x
+\* which kid the header carries.  The kid a key stands for is base64url of exactly four octets.
+IdSeq == SetToSeq(BoundaryIds)
+NextId(id) == LET i == CHOOSE j \in 1..Len(IdSeq) : IdSeq[j] = id IN IdSeq[(i % Len(IdSeq)) + 1]
+KeyIdParams == {<<id, m, kd>> : id \in BoundaryIds, m \in {"m1", "m2"}, kd \in {"own", "other", "absent"}}
+KeyIdMake(a, p) ==
+  LET id2 == NextId(p[1])
+      kid == CASE p[3] = "own" -> Str(TinkKid(IF p[2] = "m1" THEN p[1] ELSE id2))
+               [] p[3] = "other" -> Str(TinkKid(IF p[2] = "m1" THEN id2 ELSE p[1]))
+               [] p[3] = "absent" -> Absent
+  IN Case("keyid", a, <<TinkKey(p[1], a, "m1"), TinkKey(id2, a, "m2")>>,
+          [DefTok(a) EXCEPT !.signer.mat = p[2], !.hdr.kid = kid], DefV, Now0)
+
 \* ------------------------------------------------------------------ block: structure and base64
 Structs == {"ok", "nodot", "onedot", "threedots", "fourparts", "leadingdot", "trailingdot", "space", "newline"}
 EncVals == {"ok", "padded", "std", "badchar"}
@@ -246,25 +273,32 @@ SignValidator(o) ==
 SignKeysets(a) ==
   {<<Key(1, a, s, "m1", "ENABLED")>> : s \in Strats}
   \cup {<<Key(1, a, s, "m1", "ENABLED"), Key(2, Alg2(a), "TINK", "m2", "ENABLED"), Key(1, a, "IGNORED", "m3", "DISABLED")>> : s \in Strats}
+\* one and two TINK keys with key ids from the boundary set (also the keysets of the JWK pipeline)
+IdKeysets(a) == {<<TinkKey(id, a, "m1")>> : id \in BoundaryIds}
+                \cup {<<TinkKey(id, a, "m1"), TinkKey(NextId(id), Alg2(a), "m2")>> : id \in {"00000001", "00abcdef", "fbefbeff"}}
+IdOpts == {o \in FewOpts : o.custom = <<>> /\ o.aud.k \in {"absent", "list"}}
 SignCase(a, ks, o) == [blk |-> "sign", fam |-> a, ks |-> ks, o |-> o, v |-> SignValidator(o), now |-> SignNow]
 SignCases ==
   LET full == SetToSeq(SignOpts)
       few  == SetToSeq({<<a, ks, o>> : a \in JWSAlgs, ks \in UNION {SignKeysets(b) : b \in JWSAlgs}, o \in FewOpts})
       fewOk == SelectSeq(few, LAMBDA x : x[2] \in SignKeysets(x[1]))
+      ids  == SetToSeq({<<a, ks, o>> : a \in JWSAlgs, ks \in UNION {IdKeysets(b) : b \in JWSAlgs}, o \in IdOpts})
+      idsOk == SelectSeq(ids, LAMBDA x : x[2] \in IdKeysets(x[1]))
   IN [i \in 1..Len(full) |-> SignCase("HS256", DefKs("HS256"), full[i])]
      \o [i \in 1..Len(fewOk) |-> SignCase(fewOk[i][1], fewOk[i][2], fewOk[i][3])]
+     \o [i \in 1..Len(idsOk) |-> SignCase(idsOk[i][1], idsOk[i][2], idsOk[i][3])]
 
 \* ------------------------------------------------------------------ all cases
 Params(blk, a) ==
   CASE blk = "time" -> TimeParams [] blk = "timefrac" -> TimeFracParams [] blk = "timetype" -> TimeTypeParams [] blk = "presence" -> PresenceParams
     [] blk = "strings" -> StringsParams [] blk = "header" -> HeaderParams(a) [] blk = "struct" -> StructParams
-    [] blk = "json" -> JsonParams
+    [] blk = "json" -> JsonParams [] blk = "keyid" -> KeyIdParams
 Make(blk, a, p, ctx) ==
   WithCtx(CASE blk = "time" -> TimeMake(a, p) [] blk = "timefrac" -> TimeFracMake(a, p)
             [] blk = "timetype" -> TimeTypeMake(a, p)
             [] blk = "presence" -> PresenceMake(a, p) [] blk = "strings" -> StringsMake(a, p)
             [] blk = "header" -> HeaderMake(a, p) [] blk = "struct" -> StructMake(a, p)
-            [] blk = "json" -> JsonMake(a, p), ctx)
+            [] blk = "json" -> JsonMake(a, p) [] blk = "keyid" -> KeyIdMake(a, p), ctx)
 
 \* the cases of one (block, algorithm) as a sequence, in the order of the parameter tuples
 PartCases(blk, a) ==
